@@ -99,7 +99,15 @@ func freePort() int {
 }
 
 func startServer(up *scripted, inflight uint, timeout time.Duration) (*server, error) {
-	s := &server{up: up, done: make(chan error, 1)}
+	s, err := startServerWith(up, inflight, timeout)
+	if s != nil {
+		s.up = up
+	}
+	return s, err
+}
+
+func startServerWith(up resolver.Resolver, inflight uint, timeout time.Duration) (*server, error) {
+	s := &server{done: make(chan error, 1)}
 	s.addr = "127.0.0.1:" + strconv.Itoa(freePort())
 	ctx, cancel := context.WithCancel(context.Background())
 	s.cancel = cancel
